@@ -36,6 +36,7 @@ THEOREMS = [
     "Nix.C11.C11_readonly_history",
     "Nix.C11.C11_open_keeps",
     "Nix.C11.C11_conservative_history",
+    "Nix.C11.C11_canonical_id_accepted",
 ]
 ASSUMPTIONS = [
     "nixio has no write guard of its own: that libhdf5 refuses every write through a handle opened ACC_RDONLY is "
